@@ -738,12 +738,45 @@ KIND, PLURAL, NAME, NS = "Widget", "widgets", "w1", "default"
 CREATE_DELAY = 11
 
 
-def mk_spec(body, policy, delay, owned):
+def vary_owner_ref(rng, ref):
+    """the same owner (same uid) as another actor / the API server may have rewritten it: fields added,
+    changed or dropped, key order changed — still the parent's reference"""
+    r = dict(ref)
+    for k in ("blockOwnerDeletion", "controller"):
+        x = rng.random()
+        if x < 0.3:
+            r.pop(k, None)
+        elif x < 0.6:
+            r[k] = not r.get(k, False)
+    if rng.random() < 0.4:
+        r["apiVersion"] = "v2"
+    if rng.random() < 0.3:
+        r["extra"] = 1
+    items = list(r.items())
+    rng.shuffle(items)
+    return dict(items)
+
+
+def vary_owner_refs(rng, obj):
+    """apply vary_owner_ref to the parent's entry of obj.metadata.ownerReferences (in place), maybe next to a foreign one"""
+    md = obj.get("metadata") if isinstance(obj, dict) else None
+    refs = md.get(OWNERS) if isinstance(md, dict) else None
+    if not isinstance(refs, list):
+        return obj
+    out = [vary_owner_ref(rng, r) if isinstance(r, dict) and r.get("uid") == OWNER_REF["uid"] else r for r in refs]
+    if rng.random() < 0.3:
+        out.insert(0, {"uid": "someone-else", "kind": "Other", "name": "o"})
+    md[OWNERS] = out
+    return obj
+
+
+def mk_spec(body, policy, delay, owned, create_delay=None):
+    """create_delay None: the fixed CREATE_DELAY; "default": no delay key (DEFAULT_CREATE_DELAY = 30); else the value (0 allowed)"""
     spec = {
         "apiConfig": {"apiVersion": "example.dev/v1", "kind": KIND, "plural": PLURAL, "name": NAME,
                       "namespace": NS, "owned": owned},
         "resource": copy.deepcopy(body),
-        "create": {"delay": CREATE_DELAY},
+        "create": {} if create_delay == "default" else {"delay": CREATE_DELAY if create_delay is None else create_delay},
         "return": {"live": "=resource"},
     }
     if policy == "patch":
@@ -931,8 +964,11 @@ def tail_term(case, va, pobs):
             calls.append("ODelete")
         elif m["method"] == "PATCH":
             b = copy.deepcopy(m["body"])
-            doc = json.loads(b["metadata"]["annotations"][ANNOTATION])
-            b["metadata"]["annotations"][ANNOTATION] = "<last-applied>"
+            try:
+                doc = json.loads(b["metadata"]["annotations"][ANNOTATION])
+                b["metadata"]["annotations"][ANNOTATION] = "<last-applied>"
+            except Exception:  # noqa: BLE001 - a body without a readable annotation: never what the model predicts
+                doc = None
             calls.append(f"(OPatch {cjson(b)} {cjson(doc)})")
         else:
             calls.append("ODelete")   # never predicted for a tail: makes the case disagree
@@ -1018,6 +1054,12 @@ def flow_body(rng, depth):
         body["metadata"] = {"labels": {"app": "x"}, "annotations": {"note": "n"}}
     if rng.random() < 0.3:
         body["data"] = gen_good(rng, 1, nulls=False)
+    # an explicitly EMPTY metadata.annotations map, and a key compared against last-applied whose value is truthy
+    if rng.random() < 0.35:
+        body.setdefault("metadata", {})["annotations"] = {}
+    if rng.random() < 0.5:
+        t["secretRef"] = rng.choice(["s3cr3t", 7, {"name": "s"}, ["a"]])
+        t[L] = sorted(set(t.get(L, [])) | {"secretRef"})
     # target-specified EMPTY containers (emptyDir: {}, podSelector: {}, args: []) at top and nested positions
     r = rng.random()
     if r < 0.8:
@@ -1094,6 +1136,8 @@ def run_flow(ctx: Ctx, cases, terms):
         target = materialise(body)
         live = decorate(rng, target, obj, intfloat=(bi % 2 == 0))
         live.setdefault("metadata", {}).update({"uid": "uid-w1", "resourceVersion": "12"})
+        if bi % 2:
+            vary_owner_refs(rng, live)
         # sanity: the undeviated decorated object is at the fixpoint (C04's oracle; here only a precondition)
         base = run_flow_case(ctx, {"kind": "flow", "body": body, "policy": "patch", "delay": 5, "owned": owned,
                                    "live": live, "dev": None}, cases, terms)
@@ -1135,7 +1179,7 @@ def run_flow(ctx: Ctx, cases, terms):
             devs = keep[:per_body] + rng.sample(rest, max(0, min(len(rest), per_body - len(keep[:per_body]))))
         for di, (desc, live2) in enumerate(devs):
             policy = ["patch", "recreate", "never", "default"][(bi + di) % 4] if di % 5 else "patch"
-            delay = rng.choice([1, 5, 17, 60])
+            delay = rng.choice([0, 0, 1, 5, 17, 60])
             run_flow_case(ctx, {"kind": "flow", "body": body, "policy": policy, "delay": delay, "owned": owned,
                                 "live": live2, "dev": desc, "prime": live if di % 3 != 1 else None}, cases, terms)
             ctx.count(f"flow-dev:{desc['kind']}")
